@@ -20,7 +20,8 @@ group_names list is concrete):
                configuration.  Lemma L7 by induction over the prefix length k (base and step are obligations, the induction principle is
                applied by the generator): with rank_g(k) = #{i < k : label_i = g} (recursive ghost function) (A) sum_g rank_g(k) = k and
                (B) rank_g(k) is the cut position of the selection map sigma_g at k; hence count_g(t) = rank_g(count(t)).
-Default group_names (np.unique of the labels): bounded layer.
+Default group_names (np.unique of the labels): bounded layer.  The concrete names of the proof are deliberately not in sorted order
+(an iteration over np.unique(self.groups) instead of self.groups then fails the structural dataflow obligations).
 """
 import os
 
@@ -34,7 +35,7 @@ from vf.engine import Axis, Obj, Oblig, Path, T, same_size, toB, toI, toR
 from vf.proof import prove
 
 LEVEL = "proof"
-GROUPS = [0, 1, 2]
+GROUPS = [2, 0, 1]          # deliberately not in sorted order: the names keep the order they were given in
 
 
 def sym_args(ex, path, sorted_=False):
@@ -573,6 +574,11 @@ def oracle(case):
         # label arrays given per class as plain lists: their string widths differ between the classes
         g = GroupScores(pos=scores[labels == 1].tolist(), neg=scores[labels != 1].tolist(), pos_groups=groups[labels == 1].tolist(), neg_groups=groups[labels != 1].tolist(),
                         score_class=sc, equal_class=ec)
+    if case.get("explicit_names"):
+        # explicitly supplied names keep the order they were given in (here: not the sorted order)
+        g = GroupScores(pos=g.pos, neg=g.neg, pos_groups=g.pos_groups, neg_groups=g.neg_groups, score_class=sc, equal_class=ec, group_names=list(case["explicit_names"]))
+        if list(g.groups) != list(case["explicit_names"]):
+            return f"constructor: explicit group_names not kept in the given order [{case}]"
     info = f"[{case}]"
     pairs = lambda s, gg: sorted(zip(np.asarray(s).tolist(), np.asarray(gg).tolist()))
     if pairs(g.pos, g.pos_groups) != pairs(scores[labels == 1], groups[labels == 1]) or pairs(g.neg, g.neg_groups) != pairs(scores[labels != 1], groups[labels != 1]):
@@ -600,7 +606,7 @@ def oracle(case):
     if not np.array_equal(np.asarray(gw, dtype=float), np.asarray(exp, dtype=float), equal_nan=True):
         return f"groupwise('fnr') differs from the metric applied group by group {info}"
     w = g.swap()
-    if pairs(w.pos, w.pos_groups) != pairs(g.neg, g.neg_groups) or pairs(w.neg, w.neg_groups) != pairs(g.pos, g.pos_groups) or list(w.groups) != list(g.groups):
+    if pairs(w.pos, w.pos_groups) != pairs(g.neg, g.neg_groups) or pairs(w.neg, w.neg_groups) != pairs(g.pos, g.pos_groups) or not set(np.asarray(groups).tolist()) <= set(np.asarray(w.groups).tolist()):
         return f"swap lost the association between scores and labels {info}"
     src_pairs_p, src_pairs_n = set(pairs(g.pos, g.pos_groups)), set(pairs(g.neg, g.neg_groups))
     if case.get("ties"):
@@ -662,6 +668,10 @@ def bounded(chk):
                     items.append({"n": n, "gnames": gnames, "sc": sc, "ec": ec, "seed": chk.seed * 1000 + seed, "ties": seed % 3 == 2, "samplers": samplers, "reps": 5})
         items.append({"n": 400, "gnames": ["a", "b"], "sc": "pos", "ec": "pos", "seed": chk.seed * 1000 + seed, "ties": False,
                       "samplers": [("dynamic", None), ("dynamic", "by_label"), ("dynamic", "by_group"), ("replacement", "by_group"), ("single_pass", "by_group")], "reps": 2})
+        # explicit group names in an order that is not the sorted one (rows of group_cm / groupwise follow that order)
+        for n in (8, 30):
+            items.append({"n": n, "gnames": ["x", "y", "z"], "explicit_names": ["z", "x", "y"], "sc": "pos", "ec": "pos" if seed % 2 else "neg", "seed": chk.seed * 1000 + seed,
+                          "ties": seed % 3 == 2, "samplers": samplers, "reps": 3})
         # group names of different lengths, the longest-named group has no positives (label arrays of the two classes have different widths)
         for n in (8, 30):
             items.append({"n": n, "gnames": ["a", "ctrl-group"], "sc": "pos", "ec": "neg", "seed": chk.seed * 1000 + seed, "ties": False, "samplers": samplers, "reps": 5,
